@@ -345,4 +345,16 @@ theorem logP (c : Ctx) : ∀ fuel, LogP c fuel
     have ih := logP c fuel
     ⟨logP_groups c fuel ih, logP_field c fuel ih, logP_complete c fuel ih, logP_items c fuel ih⟩
 
+theorem eq_of_nodup_map_path {log : List LogEntry} (hn : (log.map (·.path)).Nodup) {e e' : LogEntry}
+    (he : e ∈ log) (he' : e' ∈ log) (hp : e'.path = e.path) : e' = e := by
+  induction log with
+  | nil => cases he
+  | cons a log ih =>
+    rw [List.map_cons, List.nodup_cons] at hn
+    rcases List.mem_cons.mp he with h1 | h1 <;> rcases List.mem_cons.mp he' with h2 | h2
+    · rw [h1, h2]
+    · exfalso; apply hn.1; rw [← h1, ← hp]; exact List.mem_map.mpr ⟨_, h2, rfl⟩
+    · exfalso; apply hn.1; rw [← h2, hp]; exact List.mem_map.mpr ⟨_, h1, rfl⟩
+    · exact ih hn.2 h1 h2
+
 end GqlModel.Exec
